@@ -1330,6 +1330,16 @@ def extract_dyns(tystr):
 # ------------------------------------------------------------------------------------------------
 # ownership (maybe-initialised) dataflow
 
+def _moves_whole(f, p):
+    """does moving out of place p leave its local without anything it owns?  The whole local, or the single payload of a Result / Option
+    (`move ((_5 as Ok).0)`: what is left of _5 is an empty shell)"""
+    if not p["p"]:
+        return True
+    if len(p["p"]) == 2 and isinstance(p["p"][0], dict) and "d" in p["p"][0] and isinstance(p["p"][1], dict) and p["p"][1].get("f") == 0:
+        return re.match(r"^std::(result::Result|option::Option)<", f.local_ty(p["l"])) is not None
+    return False
+
+
 def maybe_init(f, unwind=True):
     """forward may-analysis: set of locals that may hold an initialised value at block entry.
     gen: assignment to the whole local / call destination; kill: `move _l` of the whole local,
@@ -1344,7 +1354,7 @@ def maybe_init(f, unwind=True):
         for s in f.stmts(bb):
             if s["s"] == "assign":
                 for p, kind in rvalue_places(s["rhs"]):
-                    if kind == "move" and not p["p"]:
+                    if kind == "move" and _moves_whole(f, p):
                         st.discard(p["l"])
                 if not s["lhs"]["p"]:
                     st.add(s["lhs"]["l"])
@@ -1356,7 +1366,7 @@ def maybe_init(f, unwind=True):
         if t["t"] == "call":
             for a in t["args"]:
                 p = op_place(a)
-                if a["k"] == "move" and p is not None and not p["p"]:
+                if a["k"] == "move" and p is not None and _moves_whole(f, p):
                     st_norm.discard(p["l"])
                     st_unw.discard(p["l"])
             if not t["dest"]["p"]:
@@ -1384,7 +1394,7 @@ def init_at_terminator(f, IN, bb):
     for s in f.stmts(bb):
         if s["s"] == "assign":
             for p, kind in rvalue_places(s["rhs"]):
-                if kind == "move" and not p["p"]:
+                if kind == "move" and _moves_whole(f, p):
                     st.discard(p["l"])
             if not s["lhs"]["p"]:
                 st.add(s["lhs"]["l"])
